@@ -145,6 +145,23 @@ def build(inp):
             why = "the elements kept from list(iter(v)) are not the elements indexing gives (a yielded element changed afterwards)"
         elif unpacked != idx:
             why = "unpacking (*v) disagrees with indexing"
+        if why is None and k == "list" or why is None and k == "vec":
+            # two read-only iterations alive at the same time (over x and over another value of the same type), in lock step,
+            # and an export of the other value in the middle of a walk
+            try:
+                idy = [elem_obs(e, y[i]) for i in range(len(y))]
+                pairs = [(elem_obs(e, p), elem_obs(e, q)) for p, q in zip(x.readonly_iter(), y.readonly_iter())]
+                if pairs != list(zip(idx, idy)):
+                    why = "two read-only iterators walked in lock step (zip) hand out other elements than indexing"
+                seen = []
+                for z in x.readonly_iter():
+                    y.to_obj()
+                    bytes(y.encode_bytes())
+                    seen.append(elem_obs(e, z))
+                if seen != idx and why is None:
+                    why = "a read-only walk during which another value of the same type is exported / encoded hands out other elements than indexing"
+            except Exception as ex:  # noqa
+                why = "lock-step read-only iteration raised %r" % (ex,)
         elif slices_disagree(x, idx, lambda z: elem_obs(e, z), ll):
             why = slices_disagree(x, idx, lambda z: elem_obs(e, z), ll)
         elif rewalk_disagrees(lambda: x.readonly_iter(), idx, lambda z: elem_obs(e, z)):
